@@ -80,7 +80,7 @@ func (c *PublishHeader) WriteHTMLTo(w io.Writer) (int64, error) {
 	}
 
 	if c.options.ShowSurnames {
-		badge := core.NewCountBadge(getSurnames(c.document).Len())
+		badge := core.NewCountBadge(getSurnames(c.document, c.options).Len())
 		item := core.NewNavItem(
 			core.NewComponents(core.NewText("Surnames "), badge),
 			c.selectedTab == selectedSurnamesTab,
@@ -124,15 +124,24 @@ func (c *PublishHeader) WriteHTMLTo(w io.Writer) (int64, error) {
 	).WriteHTMLTo(w)
 }
 
-var surnames = gedcom.NewStringSet()
+// getSurnames returns the surnames of the document. They are collected once
+// for each Publisher (see NewPublisher), never once for the whole process:
+// another document, or the same document later on, has other surnames.
+func getSurnames(document *gedcom.Document, options *PublishShowOptions) *gedcom.StringSet {
+	if options != nil && options.surnames != nil {
+		return options.surnames
+	}
 
-func getSurnames(document *gedcom.Document) *gedcom.StringSet {
-	if surnames.Len() == 0 {
-		for _, individual := range document.Individuals() {
-			surname := individual.Name().Surname()
-			if surname != "" {
-				surnames.Add(surname)
-			}
+	return collectSurnames(document)
+}
+
+func collectSurnames(document *gedcom.Document) *gedcom.StringSet {
+	surnames := gedcom.NewStringSet()
+
+	for _, individual := range document.Individuals() {
+		surname := individual.Name().Surname()
+		if surname != "" {
+			surnames.Add(surname)
 		}
 	}
 
